@@ -222,8 +222,24 @@ let rerepr (m : string) (((x, y), z) : element) : element =
   else if String.length m > 1 && m.[0] = 'p' then p   (* pointer sharing: no meaning in the functional model *)
   else failwith ("bad repr " ^ m)
 
+(* Route V: integer-only model functions printed as a flat list of decimals, to be compared
+   with the kernel's own evaluation (vm_compute) of the same Gallina terms *)
+let zlist l = String.concat " " (List.map zdec l)
+let route_v = function
+  | ["ranges"; n; m] -> zlist (List.concat_map (fun (a, b) -> [a; b]) (execute_ranges (z_of_dec n) (z_of_dec m)))
+  | ["pcdigits"; w; s] -> let (ds, c) = pc_digits (z_of_dec w) (z_of_dec s) in zlist (ds @ [c])
+  | ["sha"; h] -> zlist (sha256 (bytes_of_hex h))
+  | ["leenc"; v] -> zlist (fr_bytes_le (mkfr (z_of_dec v)) @ fr_bytes (mkfr (z_of_dec v)))
+  | ["lec"; h] -> (match fst (fr_set_bytes_le_canonical (bytes_of_hex h)) with Some x -> zlist [ZZ.one; x] | None -> zlist [ZZ.zero])
+  | ["mul"; a; b] ->
+      let (((r0, r1), r2), r3) = mul_generic (limbs_of (z_of_dec a)) (limbs_of (z_of_dec b)) in zlist [r0; r1; r2; r3]
+  | ["part"; c; s] -> let (ps, k) = partition_scalars (z_of_dec c) [z_of_dec s] in zlist (ps @ [k])
+  | ["tr"; lbl; sc] -> zlist (c_transcript_run (bytes_of_hex lbl) [TScalar (z_of_dec sc, [ZZ.of_int 115]); TChallenge [ZZ.of_int 99]])
+  | _ -> failwith "bad rv op"
+
 let handle toks =
   match toks with
+  | "rv" :: rest -> route_v rest
   | ["exec"; n; m] | ["execd"; n; m] | ["execs"; n; m] ->
       let rs = execute_ranges (z_of_dec n) (z_of_dec m) in
       "r" ^ String.concat "" (List.map (fun (s, e) -> " " ^ zdec s ^ "-" ^ zdec e) rs)
